@@ -3,6 +3,7 @@ package props
 // C10 — illegal operations panic, and single-entity failures change nothing.
 
 import (
+	"strings"
 	"testing"
 
 	"verifharness/core"
@@ -48,6 +49,10 @@ func TestC10(t *testing.T) {
 			Prop:   "C10",
 			Owned:  core.Own(core.CatIllegal, core.CatDeadTarget),
 			Verify: core.FullVerify,
+			// a refused call that leaves a lock behind has changed the world
+			OwnedIf: func(s *core.Sim, f *core.Finding) bool {
+				return f.Cat == core.CatLock && strings.Contains(f.Msg, "unregistered cached filter")
+			},
 		},
 		Mix:      mix,
 		MaxPlain: 5, MaxRel: 3,
